@@ -218,7 +218,7 @@ def initHeap (F : Facts15) : Heap :=
         parent := if i == F.iterRoot then some F.arrayRoot else none,
         variants := if F.varRule == .ownPerClass then some none
                     else if i == F.iterRoot then none else some none,
-        dca := none, dcaa := none }) F.bases }
+        dca := none, dcaa := none, colArgs := none, colRef := none }) F.bases }
 
 /-! ## observation -/
 
@@ -260,6 +260,8 @@ structure Obs1 where
   tn : Option String
   ns : Option String
   target : Option Nat
+  /-- resolved `sqla_column_args[-1]` (`none` = `sqla_column_args is None`) -/
+  col : Option Kw
   deriving DecidableEq, Repr
 
 def obs1 (F : Facts15) (h : Heap) (c : Nat) : Option Obs1 :=
@@ -268,13 +270,14 @@ def obs1 (F : Facts15) (h : Heap) (c : Nat) : Option Obs1 :=
   | some cl => some
     { kind := cl.kind, attrs := F.keys.filterMap (fun k => (attrAt h cl.attrs k).map (fun v => (k, v))),
       verd := verdicts h cl, fields := cl.fields, orig := cl.orig, ext := cl.ext, tn := cl.tn, ns := cl.ns,
-      target := cl.target }
+      target := cl.target, col := (colH h cl.attrs).map (·.2) }
 
 /-- deep, identity-free snapshot -/
 inductive Obs where
   | missing
   | node (kind : Kind) (tn : Option String) (ns : Option String) (attrs : Kw) (verd : List Bool)
       (orig : Option (Option String)) (fields : List (String × Obs)) (ext : Option Obs) (flat : List String)
+      (col : Option Kw)
 
 /-- type name of a class (of the original, in a snapshot) -/
 def tnOf (h : Heap) (r : Nat) : Option String :=
@@ -299,5 +302,6 @@ def deepObs (F : Facts15) : Nat → Heap → Nat → Obs
         ((obsRefs o).map (fun p => (p.1, deepObs F fuel h p.2)))
         (o.ext.map (fun e => deepObs F fuel h e))
         (if o.kind.isComplex then flatKeysF (fuel + 1) h c else [])
+        o.col
 
 end SpyneModel.Derive
